@@ -296,17 +296,17 @@ def r6_history(ctx, cg):
     ctx.ok("C11.R6", run, run.node, f"{len(seen)} functions reachable from run / fit / personalize / simulate: no surviving global write", construct="global writes under run")
 
 
-def r7_deepcopy(ctx):
-    ctx.rule("C11.R7", "algorithm parameters are a deep copy of settings.parameters", 1)
-    f = ctx.ix.func(BASE, "BaseAlgorithm.__init__", "C11.R7")
+def r7_deepcopy(ctx, rid="C11.R7"):
+    ctx.rule(rid, "algorithm parameters are a deep copy of settings.parameters", 1)
+    f = ctx.ix.func(BASE, "BaseAlgorithm.__init__", rid)
     for st in statements(f.node):
         if isinstance(st, ast.Assign) and any(U(t) == "self.algo_parameters" for t in st.targets):
             v = st.value
             ok = isinstance(v, ast.Call) and U(v.func) in ("deepcopy", "copy.deepcopy") and v.args and U(v.args[0]) == "settings.parameters"
-            ctx.check(ok, "C11.R7", f, st, "deepcopy(settings.parameters)",
+            ctx.check(ok, rid, f, st, "deepcopy(settings.parameters)",
                       "the algorithm shares (or only shallow-copies) settings.parameters: values it rewrites (e.g. n_burn_in_iter, annealing.n_iter) leak into the caller's settings and into the next run")
             return
-    raise AnalysisError("C11.R7", "anchor vanished: self.algo_parameters = ... in BaseAlgorithm.__init__")
+    raise AnalysisError(rid, "anchor vanished: self.algo_parameters = ... in BaseAlgorithm.__init__")
 
 
 def r10_no_bare_squeeze_in_logging(ctx):
